@@ -88,7 +88,9 @@ def gen_case(rnd, prop, tier):
             ops.append(['krondot', rnd.getrandbits(32), [rnd.randint(1, 3) for _ in attrs]])
         elif r < 0.83:
             ops.append(['datavector', rnd.random() < 0.5])
-        elif r < 0.88:
+        elif r < 0.855:
+            ops.append(['synth', rnd.choice([1, 7, 60, 500]), rnd.choice(['round', 'round', 'sample']), rnd.getrandbits(32)])
+        elif r < 0.90:
             # new parameters on the same object (in place / item assignment / another total), immediately followed by a bulk query
             ops.append(['reparam', rnd.choice(['iadd', 'assign', 'total']), rnd.getrandbits(32), [gen_query(rnd, attrs, cliques) for _ in range(rnd.randint(1, 3))]])
         else:
@@ -245,6 +247,12 @@ def run_case(case, prop):
                             viol.append(Violation('answer-value', 'answer-value:datavector', 'datavector differs from the explicit joint by %.3g (%s)' % (refmodel.maxerr(got, want), tag)).as_dict())
                         digests.append(core.arr_digest(got))
                         kinds.append('d')
+                    elif kind == 'synth':
+                        srng = SimRNG(random.Random(op[3]), {})
+                        with srng.installed():
+                            model.synthetic_data(rows=op[1], method=op[2])
+                        faults['synthetic-data-between-queries'] = faults.get('synthetic-data-between-queries', 0) + 1
+                        kinds.append('y' + op[2][0])
                     elif kind == 'reparam':
                         r = random.Random(op[2])
                         if op[1] == 'total':
